@@ -23,7 +23,9 @@ THEOREMS = [_T + n for n in [
     "C08_matcher_contract_checked", "C08_contract_from_C07", "C08_holds_cover_sound", "C08_holds_cover_model", "C08_clip_score_is_mean", "C08_means", "C08_scores_in_range", "C08_empty",
     # geometry layer (review): the matcher inside the model, overlap decided by end-point comparisons
     "C08_overlap_iff_affinity_pos", "C08_overlap_symm_total", "C08_geo_matcher_contract", "C08_geo_pairs_overlap",
-    "C08_judge_sound", "C08_judge_model", "C08_geo_detection"]]
+    "C08_judge_sound", "C08_judge_model", "C08_geo_detection",
+    # tag layer (follow-up 2): the class indices come from the model of the encoder (C19); the score clause by tag equality
+    "C08_tags_bridge", "C08_pair_score_is_class_probability", "C08_clip_pair_scores", "C08_classes_are_vocabulary_tags"]]
 LEVEL_TEXT = ("Lean theorems over the model of evaluate_clip / sound_event_detection hold for all inputs: evaluated clips = "
               "predictions whose clip id is annotated, in order; every annotated and predicted sound event (with or without "
               "geometry) is in exactly one match; the filtered->original index map is the order-preserving injection; a pair "
@@ -34,7 +36,12 @@ LEVEL_TEXT = ("Lean theorems over the model of evaluate_clip / sound_event_detec
               "'paired only if the geometries overlap' is proved with overlap defined by end-point comparisons "
               "(C08_overlap_iff_affinity_pos, C08_geo_pairs_overlap). The same comparison, evaluated in Lean "
               "(judgePairs, C08_judge_sound) on the matches sound_event_detection really returned, judges every reported "
-              "pair. Ties: the matcher's default buffers (table), symbolic traces of compute_affinity on two boxes, of "
+              "pair. Tags travel as content (term with all its fields, value): the class indices are computed by the Lean "
+              "model of the encoder (C19's `encode`, bridged to the first layer by C08_tags_bridge), and 'the score of a pair "
+              "is the probability the prediction gives to the annotation's class' is proved in terms of tag equality only "
+              "(C08_pair_score_is_class_probability: stored score of the last predicted tag equal to the annotation's first "
+              "vocabulary tag, 1 - sum over the vocabulary when it has none) and evaluated in that form on every reported pair. "
+              "Ties: the matcher's default buffers (table), symbolic traces of compute_affinity on two boxes, of "
               "compute_affinity_in_time and of evaluate_sound_event's score/affinity (all inputs), differential runs of "
               "sound_event_detection, evaluate_clip and iterate_over_valid_clips against both layers.")
 LEVEL_NOTE = ("Trusted: Lean kernel; scipy's assignment (only its pairs enter the model; contract ValidAssignment evaluated "
@@ -50,15 +57,23 @@ TECHNIQUE = ("Lean 4 proof over a two-layer model (matcher as parameter under a 
              "reported pair by closed-form overlap; executable property monitor on the real results")
 RULE = ("sound_event_detection end to end (0-4 evaluated clips, 0-4 annotated and predicted events per clip, geometry "
         "present/absent, boxes on a grid identical / overlapping / touching / disjoint along one or both axes / far apart, "
-        "time intervals, time stamps, points, lines and polygons on the same grid, vocabularies of 1-6 tags, "
+        "time intervals, time stamps, points, lines and polygons on the same grid, vocabularies of 1-6 tags over the legacy "
+        "pool (distinct values) or an adversarial pool (terms sharing label / name, differing in uri, definition or type "
+        "only, the deprecated key= spelling, same value under different terms, equal content at several pool positions, "
+        "near misses outside the vocabulary; always as new objects), detection confidences 0 / 1/4 / 1/2 / 1, clip-level "
+        "tags, twin clips (same recording and time window, other uuid), "
         "dyadic or one-hot non-dyadic scores with sum <= 1), evaluate_clip on exhaustive small clips, clip pairing on all "
         "small id lists; non-trivial = a result with at least one match; distinct = distinct (operation, input)")
 TRUSTED = ["scipy.optimize.linear_sum_assignment behind match_geometries: contracts MatcherCover and ValidAssignment evaluated on every answer",
            "shapely/GEOS: exact on rectangles (trace stub); measured directly for points, lines and polygons (monitored contract)",
-           "harness: resolves a tag to the encoder's answer by position in the vocabulary (C19 covers the encoder)"]
+           "harness: the content of a tag (every field of its term, its value) is read from the fields of an object built "
+           "like the ones handed to the code; class indices and expected pair scores come from the Lean model of the "
+           "encoder, never from the library's encoder"]
 ASSUMPTIONS = ["clip ids pairwise distinct within the prediction list and within the annotation list",
                "binary64 sums of the generated scores are exact (dyadic grids, or one non-dyadic float32 score per event)",
-               "the predicted scores of one sound event over the vocabulary sum to at most 1"]
+               "the predicted scores of one sound event over the vocabulary sum to at most 1",
+               "the vocabulary is a list of pairwise different tags and the predicted tags of one sound event are pairwise "
+               "different tags (difference = any field of the term or the value)"]
 NOT_COMPARED = ["run-level metrics and per-match metric lists (property C09)", "order of the matches within a clip",
                 "error messages, uuids"]
 
